@@ -305,6 +305,10 @@ var solvers = []solverCfg{
 		return []string{"cvc5", "--strings-exp", "--produce-models", fmt.Sprintf("--tlimit=%d", t*1000), f}
 	}},
 	{"z3", func(f string, t int) []string { return []string{"z3", fmt.Sprintf("-T:%d", t), f} }},
+	// cvc5 with enumerative quantifier instantiation: decides forall/exists chains (membership preserved by append/sort) the others miss
+	{"cvc5-enum", func(f string, t int) []string {
+		return []string{"cvc5", "--strings-exp", "--enum-inst", "--produce-models", fmt.Sprintf("--tlimit=%d", t*1000), f}
+	}},
 }
 
 // procSlots bounds the number of solver processes running at the same time (CPU contention turns
@@ -543,7 +547,7 @@ func (e *Engine) solveOne(i int, o *Obligation, workdir string, timeout int, tho
 	t0 := time.Now()
 	defer func() { o.Time = time.Since(t0).Seconds() }()
 	fileFor := func(c solverCfg) string {
-		if c.name == "cvc5" {
+		if strings.HasPrefix(c.name, "cvc5") {
 			return fc
 		}
 		return fz
